@@ -307,6 +307,8 @@ class Generated:
         for p in params:
             if p not in roles:
                 raise AnalysisError(f"{gen.key}: parameter {p} has no recognised role at the wrap site")
+            if roles[p] == "extra":
+                continue  # left to its default
             kwargs[p] = values[roles[p]]
         try:
             self.result = hi.call_function(gen.node, [], kwargs, {})
@@ -484,6 +486,16 @@ def _roles(ctx, w, wcall, params):
                 roles[p] = "err"
         elif isinstance(v, ast.JoinedStr) or (isinstance(v, ast.Constant) and isinstance(v.value, str)) or (isinstance(v, ast.Call) and isinstance(v.func, ast.Attribute) and v.func.attr == "format"):
             roles[p] = "name"
+    # parameters with a default that the wrapper fills from an attribute of the table (or not at all) are not among the
+    # seven roles: the generator is interpreted with their default (whether handing over table state is sound is
+    # decided by C19's rule on shared state)
+    gen = A.dependent_generator(ctx.repo)
+    a_ = gen.node.args
+    with_default = {x.arg for x in (a_.posonlyargs + a_.args)[len(a_.posonlyargs + a_.args) - len(a_.defaults):]} | {k.arg for k, d in zip(a_.kwonlyargs, a_.kw_defaults) if d is not None}
+    for p in list(params):
+        v = passed.get(p)
+        if p in with_default and p not in roles and (v is None or (isinstance(v, ast.Attribute) and isinstance(v.value, ast.Name) and v.value.id == w.params[0])):
+            roles[p] = "extra"
     # remaining four in positional order of the generator: type tuple, handlers, next, self prefix
     rest = [p for p in params if p not in roles]
     if len(rest) != 4:
